@@ -101,6 +101,16 @@ CHECKS["C17"] = dict(level="model_checking", ref="DESIGN.md §4 C17, §9",
          "are not bound to the code yet; 1-4 members, one dependency.",
     tech="TLA+ reference AppContract evaluated by TLC as oracle over recorded histories of a real node (trace validation)")
 
+CHECKS["C18"] = dict(level="model_checking", ref="DESIGN.md §4 C18, §9",
+    text="TLA+ sequential reference Events (token rule, last-N buffer, delivery once and in order to every current subscriber, exit/down on unregister or "
+         "termination of the owner, start/stop notices) used as oracle: systematic histories for buffers 0-3 x notify on/off and hundreds of seeded random ones "
+         "(2 producers, 3 consumers, 2 events; register, publish with and without the token, link/monitor subscribe, unsubscribe, unregister, kill of a producer) are "
+         "executed on a real node and TLC replays every recorded line, comparing results, the buffer returned to a new subscriber, the payload sequence at every "
+         "subscriber, notifications and notices.",
+    note="Trusted: TLC; operations are sequential (quiescence after each): the publish-versus-subscribe race (atomic-step draft in DESIGN Appendix I; yield points "
+         "event.* / sub.* exist in the code) and remote subscribers are not bound yet.",
+    tech="TLA+ reference Events evaluated by TLC as oracle over recorded histories of a real node (trace validation)")
+
 NOT_YET = {
 }
 
